@@ -519,6 +519,8 @@ impl Clone for Repr {
                     Buffer::deallocate_raw(NonNull::new_unchecked(self.data.heap.0), cap);
                 }
 
+                #[cfg(dashu_verif)]
+                dashu_base::verif::hit(dashu_base::verif::CLONE_FROM_REALLOC);
                 let new_cap = Buffer::default_capacity(src_len);
                 let new_ptr = Buffer::allocate_raw(new_cap);
                 self.data.heap.0 = new_ptr.as_ptr();
@@ -832,5 +834,22 @@ mod tests {
         assert_eq!(repr.len(), 1);
         assert_eq!(repr, repr_inline);
         assert!(matches!(repr.as_typed(), TypedReprRef::RefSmall(_)));
+    }
+}
+
+#[cfg(dashu_verif)]
+impl Repr {
+    /// Verification hook: raw layout of the representation as
+    /// (signed capacity field, length field or inline length, inline words or [0, 0], heap pointer address or 0).
+    pub fn verif_layout(&self) -> (isize, usize, [Word; 2], usize) {
+        let cap = self.capacity.get();
+        // SAFETY: the union field read is selected by the capacity, same as in `as_sign_slice`
+        unsafe {
+            if cap.unsigned_abs() <= 2 {
+                (cap, self.len(), self.data.inline, 0)
+            } else {
+                (cap, self.data.heap.1, [0, 0], self.data.heap.0 as usize)
+            }
+        }
     }
 }
